@@ -10,12 +10,19 @@ for pid in pids:
     for f in sorted(glob.glob(f'/verif/sa/selftest/equivalent/{pid}/*.diff')): jobs.append((pid,f,'equiv'))
     for f in sorted(glob.glob(f'/verif/sa/selftest/never_alarm/{pid}/*.diff')): jobs.append((pid,f,'never'))
     for f in sorted(glob.glob(f'/verif/sa/selftest/mutants/{pid}/*.diff')): jobs.append((pid,f,'mutant'))
+sys.path.insert(0, '/verif')
+from sa.selftest.thorough import EXPECTED_NOT_UNDERSTOOD as _ENU          # the same expectation the thorough tier applies: listed -> 2, every other seeded change / mutant -> 1
+def _want(pid, f, k):
+    if k in ('seeded', 'mutant'):
+        lab = 'seeded/' + f.split('/seeded/')[1] if '/seeded/' in f else None
+        return (2,) if lab in _ENU else (1,)
+    return (0,) if k == 'equiv' else (0, 2)
 def one(j):
     pid,f,k=j; r=mutcheck.run(f,[pid],quiet=True); return j, (r[pid] if r else ('patch-failed',[]))
 bad=0
 with cf.ThreadPoolExecutor(14) as ex:
     for (pid,f,k),(rc,lines) in ex.map(one, jobs):
-        ok = (rc in (1,2) if k in('seeded','mutant') else rc==0 if k=='equiv' else rc in (0,2))
+        ok = rc in _want(pid, f, k)
         tag = '' if ok else '   <<<<<< UNEXPECTED'
         if k in ('seeded','mutant') and rc==2: tag+=' (not understood)'
         if tag: print(k, '/'.join(f.split('/')[-2:]), rc, tag, (lines[0][:160] if lines else ''))
